@@ -8,14 +8,7 @@
 #![allow(deprecated)]
 #![allow(dead_code, unused_imports, unused_variables)]
 
-mod alloc_ledger;
-mod drivers;
-mod exercise;
-mod exercise_hdr;
-mod gen;
-mod region;
-mod spec;
-mod util;
+use mb2mon::{drivers, region, util};
 
 use std::collections::{BTreeMap, HashSet};
 use std::time::Instant;
@@ -131,6 +124,23 @@ fn main() {
         case_desc: None,
     };
 
+    if args.prop == "CORPUS" {
+        // writes generator-made seed inputs for the libFuzzer target (E6)
+        let dir = std::env::var("MB2_CORPUS_DIR").expect("MB2_CORPUS_DIR");
+        std::fs::create_dir_all(&dir).unwrap();
+        for (i, d) in mb2mon::fuzz_entry::corpus_seeds(400).iter().enumerate() {
+            std::fs::write(format!("{}/seed-{:04}", dir, i), d).unwrap();
+        }
+        return;
+    }
+    if args.prop == "FUZZONE" {
+        // replays one libFuzzer artifact through the monitors
+        let path = std::env::var("MB2_INPUT").expect("MB2_INPUT");
+        let data = std::fs::read(path).unwrap();
+        let sigs = mb2mon::fuzz_entry::fuzz_one(&data);
+        println!("monitors fired: {:?}", sigs);
+        std::process::exit(if sigs.is_empty() { 0 } else { 1 });
+    }
     let mut drv = drivers::make(&args.prop).unwrap_or_else(|| {
         eprintln!("unknown property/driver {}", args.prop);
         std::process::exit(3);
